@@ -567,6 +567,9 @@ func c18usePub(p *sm2.PublicKey) {
 	if p.X != nil && p.Y != nil {
 		sm2.Compress(p)
 		x509.WritePublicKeyToHex(p)
+		// consumers that go through crypto/elliptic (they panic on a point that is not on the curve: round 11)
+		x509.MarshalSm2PublicKey(p)
+		x509.WritePublicKeyToPem(p)
 	}
 }
 
